@@ -275,11 +275,58 @@ def _large_array_probe(rep):
         shutil.rmtree(work, ignore_errors=True)
 
 
+def _long_array_probe(rep, pid):
+    """The specification's arrays are short; codecs may treat long arrays in
+    bulk.  Arrays of every multi-byte scalar with 63..1000 elements are encoded
+    and decoded in '<', '>' and '<' again IN ONE PROCESS: decode gives the
+    value back, consumes everything and is a fixpoint of re-encoding, in every
+    order of the calls."""
+    import shutil
+    import tempfile
+    from . import pyleg as P
+    work = tempfile.mkdtemp(prefix="vflong-", dir=scratch_dir("py"))
+    text = ("struct A { u16 a<>; i32 b<>; u64 c<>; float d<>; double e<>; i16 f<>; };\n"
+            "struct B { u32 n; i64 g<@n>; u16 h<@n>; };\n")
+    try:
+        mod, _ = P.compile_python(text, work, "longarr")
+        for n in (63, 64, 65, 200, 1000):
+            a = mod.A()
+            a.a[:] = [(i * 259 + 1) % 65536 for i in range(n)]
+            a.b[:] = [(i * 65539 + 3) % (2 ** 31) - (i % 2) * 7 for i in range(n)]
+            a.c[:] = [(i * 4294967311 + 5) % (2 ** 64) for i in range(n)]
+            a.d[:] = [float(i) + 0.5 for i in range(n)]
+            a.e[:] = [float(i) * 1.25 - 3 for i in range(n)]
+            a.f[:] = [(i * 263) % 32768 - (i % 3) * 100 for i in range(n)]
+            b = mod.B()
+            b.g[:] = [(i * 4294967311 + 5) % (2 ** 63) - i for i in range(n)]
+            b.h[:] = [(i * 259 + 1) % 65536 for i in range(n)]
+            for cls, m, fields in ((mod.A, a, "abcdef"), (mod.B, b, "gh")):
+                for order in ("<", ">", "<", ">"):
+                    data = m.encode(order)
+                    try:
+                        d = cls()
+                        used = d.decode(data, order)
+                        bad = [fl for fl in fields if list(getattr(d, fl)) != list(getattr(m, fl))]
+                        ok = used == len(data) and not bad and d.encode(order) == data
+                        err = "decoded value differs in %s" % bad if bad else "consumed %r of %d / re-encoding differs" % (used, len(data))
+                    except Exception as e:
+                        ok, err = False, P.exc_text(e)
+                    rep.count(1)
+                    if not ok:
+                        f = {"check": "dec", "long_array": n, "what": "%s with %d elements per array: decode(encode(v, %r), %r) "
+                             "is not v (calls in one process: '<', '>', '<', '>'): %s" % (cls.__name__, n, order, order, err),
+                             "schema": text}
+                        rep.violation(f, shadows.match(pid, f))
+    finally:
+        shutil.rmtree(work, ignore_errors=True)
+
+
 def c02(tier, replay):
     guard = wire.vacuity_guard()
     return _run("C02", tier, ["dec"], replay, ASSUME_COMMON + [
         "round trip claimed only for vectors with GreedyTailAligned (spec operator)"], RULE,
-        extra_leg=[_decode_trace_leg, lambda rep, tier, pid: _large_array_probe(rep)])
+        extra_leg=[_decode_trace_leg, lambda rep, tier, pid: _large_array_probe(rep),
+                   lambda rep, tier, pid: _long_array_probe(rep, pid)])
 
 
 def py_random_leg(rep, checks, tier, groups):
@@ -344,6 +391,7 @@ def c06(tier, replay):
         "the reference decoder's verdict is recorded as information only - the property does not oblige the codec "
         "to reject anything in particular"]
     _decode_trace_leg(rep, tier, "C06")
+    _long_array_probe(rep, "C06")
     vs = wire.generate_faults(tier)
     for st in vs.stats:
         rep.add_tlc(st)
